@@ -49,7 +49,7 @@ LOCAL = {
     "ema_2col": ("aligned", lambda g, c: g.ema(_two(c), alpha=0.5, mask=c.M)),
 }
 RED = ["size", "count", "sum", "mean", "min", "max", "first", "last", "var", "sum_t", "last_t",
-       "sum_2col", "first_2col", "last_2col_t"]
+       "sum_2col", "first_2col", "last_2col_t", "sum@nosort", "first@nosort"]
 OTHER = ["cumsum", "cummax", "rolling_sum", "shift", "ema_alpha", "median", "apply_sum_2col",
          "cumsum_2col", "ema_2col", "head2", "groups", "count_t", "mean_t"]
 ORDER_SENSITIVE = {"first", "last", "first_2col", "last_2col_t", "sum_2col", "min", "groups",
@@ -115,6 +115,10 @@ class StrategySpace(Subspace):
                 out.append((f"arrow value chunks={comp} chunkwise", dict(vchunks=comp, threshold=1,
                                                                         fanout=2),
                             RED if thorough else A6, ()))
+            # empty chunks (a filter leaves them behind): first, middle, last
+            for comp in ((0, n), (1, 0, n - 1), (n, 0)):
+                out.append((f"arrow key chunks={comp}", dict(kchunks=comp), K16, ()))
+                out.append((f"arrow value chunks={comp} T=2", dict(vchunks=comp, T=2), A6, ()))
             if n <= 4:
                 for kc in W.compositions(n, 3, 2):
                     for vc in W.compositions(n, 3, 2):
@@ -155,6 +159,9 @@ class StrategySpace(Subspace):
         def execute(name, cfg, ctx, keyarg):
             seams.set(executor=sched.NAMESPACE, threshold=cfg.get("threshold"),
                       fanout=cfg.get("fanout"), max_threads=cfg.get("T", 1))
+            if name.endswith("@nosort"):
+                # first-appearance label order must not depend on the strategy either
+                return gbh.call(lambda: op_fn(name[:-7])(GroupBy(keyarg, sort=False), ctx))
             return gbh.call(lambda: op_fn(name)(GroupBy(keyarg), ctx))
 
         for label, cfg, opnames, devops in self.configs(n, case["mode"], case.get("thorough", False)):
@@ -168,7 +175,8 @@ class StrategySpace(Subspace):
                 ctx = O.Ctx(V=chunked(d.V, cfg["vchunks"]), M=ctx0.M,
                             V2=chunked(d.V2, cfg["vchunks"]), T=ctx0.T, VS=ctx0.VS, n=n)
             for name in opnames:
-                if name in O.OPS and vkind not in O.OPS[name].vkinds:
+                bname = name[:-7] if name.endswith("@nosort") else name
+                if bname in O.OPS and vkind not in O.OPS[bname].vkinds:
                     continue
                 if name in O.OPS and mref is not None and "bool" not in O.OPS[name].masks:
                     if any(m == 0 for m in mref):
